@@ -404,6 +404,28 @@ fire('C17', 'dimension-bytes-through-char-range', ('src/Parameter.cpp', '''     
         _dimension.assign(dimensionSizes.begin(), dimensionSizes.end());
     }'''))
 
+# ---- round-9 / quiet round-10 rules
+for pid in ('C01', 'C02', 'C04'):
+    fire(pid, 'parameters-inherit-group-lock', ('src/Group.cpp', 'p.read(file, nbCharInName);', 'p.read(file, isLocked() ? -abs(nbCharInName) : nbCharInName);'))
+    fire(pid, 'parameter-lock-sign-dropped', ('src/Parameters.cpp', '        if (nbCharInName == 0)', '        bool entryLocked(nbCharInName < 0);\n        if (nbCharInName == 0)'),
+         ('src/Parameters.cpp', 'nextParamByteInFile = group_nonConst(static_cast<size_t>(abs(id)-1)).read(file, nbCharInName);',
+          '{ nextParamByteInFile = group_nonConst(static_cast<size_t>(abs(id)-1)).read(file, abs(nbCharInName)); if (entryLocked) group_nonConst(static_cast<size_t>(abs(id)-1)).lock(); }'),
+         ('src/Parameters.cpp', 'parameter(file, nbCharInName);', 'parameter(file, abs(nbCharInName));'))
+    quiet(pid, 'group-lock-reapplied', ('src/Parameters.cpp', '        if (nbCharInName == 0)', '        bool entryLocked(nbCharInName < 0);\n        if (nbCharInName == 0)'),
+          ('src/Parameters.cpp', 'nextParamByteInFile = group_nonConst(static_cast<size_t>(abs(id)-1)).read(file, nbCharInName);',
+           '{ nextParamByteInFile = group_nonConst(static_cast<size_t>(abs(id)-1)).read(file, abs(nbCharInName)); if (entryLocked) group_nonConst(static_cast<size_t>(abs(id)-1)).lock(); }'))
+fire('C02', 'name-stream-hoisted', ('src/Data.cpp', '        ezc3d::DataNS::Frame f;', '        ezc3d::DataNS::Frame f;\n        std::stringstream unlabel;'),
+     ('src/Data.cpp', '                    std::stringstream unlabel;\n                    unlabel << "unlabeled_point_" << i;', '                    unlabel.clear();\n                    unlabel << "unlabeled_point_" << i;'))
+quiet('C02', 'name-stream-hoisted-and-emptied', ('src/Data.cpp', '        ezc3d::DataNS::Frame f;', '        ezc3d::DataNS::Frame f;\n        std::stringstream unlabel;'),
+      ('src/Data.cpp', '                    std::stringstream unlabel;\n                    unlabel << "unlabeled_point_" << i;', '                    unlabel.str("");\n                    unlabel << "unlabeled_point_" << i;'))
+fire('C15', 'early-return-on-empty-path', (W, '    std::fstream f(filePath, std::ios::out | std::ios::binary);', '    if (filePath.empty())\n        return;\n    std::fstream f(filePath, std::ios::out | std::ios::binary);'))
+fire('C15', 'padding-through-streambuf-iterator', ('src/Parameter.cpp', '#include "Parameter.h"', '#include "Parameter.h"\n#include <iterator>\n#include <algorithm>'),
+     ('src/Parameter.cpp', '''                for (size_t j=_param_data_string[0].size(); j<_dimension[0]; ++j)
+                    f.write(&buffer, static_cast<int>(DATA_TYPE::BYTE));''', '''                if (_param_data_string[0].size() < _dimension[0])
+                    std::fill_n(std::ostreambuf_iterator<char>(f), _dimension[0] - _param_data_string[0].size(), buffer);'''))
+fire('C11', 'name-moved-then-trimmed', ('include/Point.h', '    void name(const std::string &name);', '    void name(const std::string &name);\n    void name(std::string &&name);'),
+     ('src/Point.cpp', 'void ezc3d::DataNS::Points3dNS::Point::name(const std::string &name)', 'void ezc3d::DataNS::Points3dNS::Point::name(std::string &&name)\n{\n    _name = std::move(name);\n    ezc3d::removeTrailingSpaces(name);\n}\n\nvoid ezc3d::DataNS::Points3dNS::Point::name(const std::string &name)'))
+
 def main():
     made = 0
     skipped = []
